@@ -20,7 +20,21 @@ across restarts, which is what keeps C15's election safety true of the loop AROU
 NOT PROVED — EXPLORED: the end-to-end statement.  The `cluster` engine starts 3 and 5 real node processes on loopback, runs 4-16
 concurrent RESP clients against random nodes, kills (SIGKILL) followers, the leader, minorities and all nodes at random instants,
 restarts them from disk, crosses the snapshot threshold, lets a follower fall behind a compaction (MsgSnap), adds and removes a
-member, and checks: no node exits on its own; one well-formed reply per command; every per-key history linearizable (porcupine;
+member, and PARTITIONS the network between live nodes (scenarios with proxied links, harness/cluster_links.go: every directed raft link
+i->j is a TCP forwarder of the harness, node i's PeerAddrs names its own URL and the forwarders towards the others; a cut closes every
+open connection of both directions and closes new ones on arrival, a heal lets rafthttp redial).  Fault kinds: isolate-leader (the
+leader is cut off from everybody, keeps running and serving its clients, and is held there until the majority side has elected a new
+leader AND acknowledged writes under it, plus 0.6-1.4 s - raftexample configures no CheckQuorum, so the old leader is never told), isolate-follower (2-4 s; the node
+campaigns alone and comes back with a higher term: one more election after the heal), split (one follower <-> leader link, 2.5-4.5 s),
+partition-leader-minority (5 nodes: leader + one follower against the other three), isolate-follower-snap (a LIVE follower cut off
+across the snapshot threshold, caught up by MsgSnap after the heal), each followed by a heal and a wait until every node answers through
+the log again.  Clients keep talking to ALL nodes, one read-only client is pinned to every node (so a cut-off node keeps being asked);
+a command gives up after 1.5 s (a pinned read after 0.8 s; on the minority side it would block as long as the cut lasts) and is an unknown-outcome operation (the client then backs off and turns to the other nodes for 4 s), a
+read that RETURNED a value on a cut-off node is an acknowledged operation and must linearize like any other (a stale read from a
+leader that answers from its local keyspace shows here; the violation's excerpt names the first reply without an explanation and the
+writes acknowledged before it).  Unavailability of the minority side, the election after a heal and rafthttp's reconnect delay are not
+problems.  Quick tier: q-isolate-leader-3, q-isolate-follower-3, q-split-3 (beside each other in their own harness processes, after the main sequence and the repros); thorough
+tier adds repeated and mixed partitions, 5 nodes, partition + kill, partition + snapshot.  The checks: no node exits on its own; one well-formed reply per command; every per-key history linearizable (porcupine;
 unknown-outcome commands may take effect at any later point or never); all nodes return the same value for every key at quiescence.
 Commands whose effect depends on the replica's clock or random source (relative TTLs, SPOP/SRANDMEMBER, XADD *) are kept out of the
 workload: each has its own minimal scenario and is a recorded known finding."""
